@@ -250,9 +250,254 @@ def model_tie(ctx: vlib.Ctx):
         ctx.not_shown("oracle_ok(str.isprintable)", str(bad[:5]))
 
 
+
+# ---------------------------------------------------------------------------
+# literal VALUES (round 3): render_lit / eval_lit vs repr / eval / get_field_default_literal
+# ---------------------------------------------------------------------------
+
+class Nm:
+    """an object that the generator binds by reference under a name"""
+    def __init__(self, name):
+        self.name = name
+
+    def __eq__(self, o):
+        return isinstance(o, Nm) and o.name == self.name
+
+    def __hash__(self):
+        return hash(self.name)
+
+    def __repr__(self):
+        return "__import__('builtins')." + SENTINEL + ".append(1)"
+
+
+class _Names(dict):
+    def __missing__(self, k):
+        return Nm(k)
+
+
+NAME_POOL = ["v_0123456789abcdef", "v_a", "x", "bx", "b", "rb", "Truex", "none", "_", "v_é", "中"]
+
+
+def rand_lit(rng, depth=0, names=True):
+    k = rng.random()
+    if depth < 3 and k < 0.3:
+        n = rng.choice([0, 1, 1, 2, 2, 3, 5])
+        return tuple(rand_lit(rng, depth + 1, names) for _ in range(n))
+    if k < 0.5:
+        return rand_string(rng, 6)
+    if k < 0.6:
+        return rand_string(rng, 5).encode("utf-8", "surrogatepass")
+    if k < 0.78:
+        return rng.choice([0, 1, -1, 7, 10, -10, 100, 255, 2**31, -2**63, 10**30, rng.randrange(-10**6, 10**6)])
+    if k < 0.86:
+        return rng.choice([True, False])
+    if k < 0.92 or not names:
+        return None
+    return Nm(rng.choice(NAME_POOL))
+
+
+def coq_lit(v) -> str:
+    if isinstance(v, bool):
+        return "(LBool %s)" % ("true" if v else "false")
+    if v is None:
+        return "LNone"
+    if isinstance(v, str):
+        return "(LStr %s)" % coq_nl(cps(v))
+    if isinstance(v, bytes):
+        return "(LBytes %s)" % coq_nl(list(v))
+    if isinstance(v, int):
+        return "(LInt (%d)%%Z)" % v
+    if isinstance(v, Nm):
+        return "(LName %s)" % coq_nl(cps(v.name))
+    if isinstance(v, tuple):
+        return "(LTuple [" + "; ".join(coq_lit(x) for x in v) + "])"
+    raise TypeError(v)
+
+
+def py_render(v) -> str:
+    """CPython's own rendering: repr() for literal kinds, the bound name for objects, tuples like repr(tuple)"""
+    if isinstance(v, Nm):
+        return v.name
+    if isinstance(v, tuple):
+        if len(v) == 1:
+            return "(" + py_render(v[0]) + ",)"
+        return "(" + ", ".join(py_render(x) for x in v) + ")"
+    return repr(v)
+
+
+def has_nm(v) -> bool:
+    return isinstance(v, Nm) or (isinstance(v, tuple) and any(has_nm(x) for x in v))
+
+
+def real_default_literal(values):
+    """CodeBuilder.get_field_default_literal of /repo on each value -> (text, value with every
+    object that was imported by reference replaced by Nm(its name))"""
+    import dataclasses
+    from mashumaro.core.meta.code.builder import CodeBuilder
+
+    @dataclasses.dataclass
+    class _H:
+        x: int = 0
+    out = []
+    for v in values:
+        cb = CodeBuilder(_H)
+        bound = {}
+        orig = cb.ensure_object_imported
+
+        def rec(obj, name=None, _b=bound, _o=orig):
+            _b[id(obj)] = (obj, name)
+            return _o(obj, name)
+        cb.ensure_object_imported = rec
+        try:
+            text = cb.get_field_default_literal(v)
+        except Exception as e:
+            out.append((None, f"{type(e).__name__}: {e}"))
+            continue
+
+        def subst(x):
+            if id(x) in bound and bound[id(x)][0] is x:
+                return Nm(bound[id(x)][1])
+            if isinstance(x, tuple):
+                return tuple(subst(y) for y in x)
+            return x
+        out.append((text, subst(v)))
+    return out
+
+
+EVAL_RESTS = [":", ")", "", " :", ", 1)", "]", "\n"]
+HAND_EXPRS = ["(1)", "( 1 , 2 )", "(1,)", "((1))", "((),)", "()", "( )", "(1 2)", "007", "0", "-0", "-5", "True", "Truex", "None",
+              "(None,)", "b'x'", "bx", "('a',)", "(1,,)", "(,)", "(1", "(1,", "(1, 2", "'a", "(", ")", "-", "-x", "1x", "10", "(True, False)",
+              "('it\\'s', \"x\")", "(((1, 2), 3), ())", "(1 ,2)", "(1, 2, )", "x'y'", "1(", "x("]
+
+
+def lit_tie(ctx: vlib.Ctx):
+    rng = ctx.rng
+    n = ctx.budget(400, 4000)
+    vals = [(), ("it's",), ("a", 1), (("x",), ()), (True, None, -1), ("'", '"', "\\"), (b"\x00'", "\ud800"), 10**40, -(10**20)]
+    while len(vals) < n:
+        vals.append(rand_lit(rng))
+    # ---- render_lit vs CPython repr / name binding
+    tab = sorted({c for v in vals for c in map(ord, py_render(v)) if c >= 0x80 and chr(c).isprintable()})
+    defs = "Local Open Scope N_scope.\nDefinition ptab : list N := " + coq_nl(tab) + ".\n"
+    cases = [f"({coq_lit(v)}, {coq_nl(cps(py_render(v)))})" for v in vals]
+    _corr(ctx, "render_lit-model-vs-cpython-repr", "PyStrLit PyLit", defs, cases, "render_case_ok ptab", "lit * list N", lambda i: repr(vals[i])[:80])
+    # ---- render_lit vs the real get_field_default_literal (objects and bytes are imported by name)
+    class Obj:
+        def __repr__(self):
+            return "x') or " + _HIT + " or ('"
+    dvals = [v for v in vals if not has_nm(v)][: n // 2]
+    dvals += [(Obj(), 1), (Obj(),), ((Obj(), "a"), b"b"), Obj(), b"bytes", (1.5, "a")][:6]
+    real = real_default_literal(dvals)
+    cases, shown = [], []
+    for v, (text, ev) in zip(dvals, real):
+        if text is None:
+            ctx.not_shown("get_field_default_literal raised", f"{v!r}: {ev}")
+            continue
+        if any(isinstance(x, float) for x in _flat(ev)):
+            continue        # float repr is not in the model (stated)
+        if any(not isinstance(x, (str, bytes, int, bool, type(None), Nm)) for x in _flat(ev)):
+            ctx.not_shown("get_field_default_literal left an object un-named", repr(v)[:100])
+            continue
+        cases.append(f"({coq_lit(ev)}, {coq_nl(cps(text))})")
+        shown.append(text)
+    _corr(ctx, "render_lit-model-vs-get_field_default_literal", "PyStrLit PyLit", defs, cases, "render_case_ok ptab", "lit * list N",
+          lambda i: shown[i][:80])
+    # ---- (T) validation: the branch table K10 read from get_field_default_literal, interpreted in Coq
+    #      (shape), against the real function on the same default values
+    import enum as _enum
+    import collections as _coll
+
+    class Fl(_enum.IntFlag):
+        A = 1
+        B = 4
+    NTp = _coll.namedtuple("NTp", ["a"])
+    extra = [Fl.A, Fl.A | Fl.B, (Fl.B, "x"), NTp(1), (NTp("a"), 2), float("nan"), (float("inf"), 1), Obj(), (Obj(), (Obj(), "a")), b"by", (b"b", ("c",))]
+    svals = [v for v in dvals if not any(isinstance(x, float) for x in _flat(v))] + extra
+    sreal = real_default_literal(svals)
+    cases, shown = [], []
+    for v, (text, ev) in zip(svals, sreal):
+        if text is None:
+            continue
+        ids = {}
+
+        def dv(x):
+            if isinstance(x, _enum.IntFlag):
+                return "(DIntFlag (%d)%%Z)" % int(x)
+            if isinstance(x, bool):
+                return "(DBool %s)" % ("true" if x else "false")
+            if x is None:
+                return "DNone"
+            if type(x) is str:
+                return "(DStr %s)" % coq_nl(cps(x))
+            if type(x) is int:
+                return "(DInt (%d)%%Z)" % x
+            if type(x) is tuple:
+                return "(DTuple [" + "; ".join(dv(y) for y in x) + "])"
+            ids[id(x)] = len(ids) + 1
+            return "(DOther %d)" % ids[id(x)]
+        term = dv(v)
+        # the real function's fresh names -> v_<identity index>, in order of import = order of traversal
+        names = [nm.name for nm in _flat(ev) if isinstance(nm, Nm)]
+        t2 = text
+        for k, nmn in enumerate(names):
+            t2 = t2.replace(nmn, "v_%d" % (k + 1))
+        cases.append(f"({term}, {coq_nl(cps(t2))})")
+        shown.append(text)
+    vlib.coq_make(["gen/K10.vo", "theories/DefaultLit.vo"])
+    bad, log = vlib.coq_bad_idx("c16_shape", "PyStrLit PyLit Splice DefaultLit", "From VerifGen Require Import K10.", defs, cases,
+                                "fun c => match shape default_literal_branches (fst c) with Some l => leqb (render_lit (tab_oracle ptab) l) (snd c) | None => false end",
+                                "dval * list N", shard=500, needs=["theories/PyLit.vo", "theories/DefaultLit.vo", "gen/K10.vo"])
+    nm_ = "K10-branch-table(shape)-vs-get_field_default_literal"
+    if bad is None:
+        ctx.correspondence(nm_, len(cases), -1, log)
+        ctx.not_shown("translation validation " + nm_, log)
+    else:
+        ctx.correspondence(nm_, len(cases), len(bad), "; ".join(shown[i][:60] for i in bad[:8]))
+        if bad:
+            ctx.not_shown("translation validation " + nm_, "; ".join(shown[i][:80] for i in bad[:8]))
+    ctx.count(n=len(cases))
+    # ---- eval_lit vs CPython eval
+    exprs = [py_render(v) for v in vals[: n // 2] if _names_ok(v)] + HAND_EXPRS
+    cases, texts = [], []
+    for i, e in enumerate(exprs):
+        if "\\N" in e or "\r" in e or "\0" in e or any(0xd800 <= ord(c) < 0xe000 for c in e):
+            continue     # lexer-tie exclusions (see lex_input_ok / py_lex); raw CR/NUL/surrogates cannot be produced by repr
+        rest = EVAL_RESTS[i % len(EVAL_RESTS)] if i < len(exprs) - len(HAND_EXPRS) else ":"
+        try:
+            with warnings.catch_warnings():
+                warnings.simplefilter("ignore")
+                val = eval(compile(e, "<c16>", "eval"), {"__builtins__": {}}, _Names())
+            exp = f"Some ({coq_lit(val)}, {len(rest)}%nat)"
+        except Exception:
+            exp = "None"
+        cases.append(f"({coq_nl(cps(e + rest))}, {exp})")
+        texts.append(e + rest)
+    _corr(ctx, "eval_lit-model-vs-cpython-eval", "PyStrLit PyLit", "Local Open Scope N_scope.\n", cases, "eval_case_ok",
+          "list N * option (lit * nat)", lambda i: repr(texts[i])[:80])
+
+
+def _flat(v):
+    if isinstance(v, tuple):
+        for x in v:
+            yield from _flat(x)
+    else:
+        yield v
+
+
+def _names_ok(v) -> bool:
+    import keyword
+    import unicodedata
+    for x in _flat(v):
+        if isinstance(x, Nm):
+            nm = x.name
+            if not (nm.isidentifier() and not keyword.iskeyword(nm) and unicodedata.normalize("NFKC", nm) == nm):
+                return False
+    return True
+
+
 def _corr(ctx, name, imports, defs, cases, okf, ctype, show):
     bad, log = vlib.coq_bad_idx("c16_" + name.split("-vs-")[0].replace("-", "_"), imports, "", defs, cases, okf, ctype,
-                                shard=500, needs=["theories/PyStrLit.vo"])
+                                shard=500, needs=["theories/PyStrLit.vo", "theories/PyLit.vo"])
     if bad is None:
         ctx.correspondence(name, len(cases), -1, log)
         ctx.not_shown("correspondence " + name, log)
@@ -518,6 +763,55 @@ def check():
     eq('from_dict', lambda: A.from_dict({}), A(S, (S, 1)))
     return OUT
 """
+    if how == "subclass":
+        return header(s) + """
+class SubStr(str):
+    def __repr__(self): return S
+class SubBytes(bytes):
+    def __repr__(self): return S
+@dataclass
+class A(DataClassDictMixin):
+    x: Literal[SubStr('v')]
+@dataclass
+class B(DataClassDictMixin):
+    x: Literal[SubBytes(b'v'), 'w']
+def check():
+    eq('from_dict', lambda: A.from_dict({'x': 'v'}), A('v'))
+    raises('other value', lambda: A.from_dict({'x': 'u'}), InvalidFieldValue, 'field_name', 'x')
+    eq('from_dict bytes', lambda: B.from_dict({'x': encodebytes(b'v').decode()}), B(b'v'))
+    eq('from_dict str member', lambda: B.from_dict({'x': 'w'}), B('w'))
+    return OUT
+"""
+    if how == "default-object":
+        return header(s) + """
+class Evil:
+    def __init__(self, s): self.s = s
+    def __repr__(self): return self.s
+    def __eq__(self, o): return isinstance(o, Evil) and o.s == self.s
+    def __hash__(self): return hash(self.s)
+class EvilStr(str):
+    def __repr__(self): return str(self)
+class Fl(enum.IntFlag):
+    A = 1
+    B = 2
+@dataclass
+class A(DataClassDictMixin):
+    g: Any = EvilStr(S)
+    t: Tuple[Any, str] = (Evil(S), S)
+    u: Tuple[Tuple[str, ...], int] = ((S,), 1)
+    w: Tuple[str] = (S,)
+    e: Any = Evil(S)
+    f: Fl = Fl.B
+    b: Any = S.encode('utf-8', 'surrogatepass')
+    class Config(BaseConfig):
+        omit_default = True
+def check():
+    eq('defaults omitted', lambda: A().to_dict(), {})
+    eq('others kept', lambda: A(EvilStr(S + '~'), (Evil(S + '~'), S), ((S, S), 1), (S + '~',), Evil(S + '~'), Fl.A, b'~').to_dict(),
+       {'g': EvilStr(S + '~'), 't': [Evil(S + '~'), S], 'u': [[S, S], 1], 'w': [S + '~'], 'e': Evil(S + '~'), 'f': 1, 'b': b'~'})
+    eq('from_dict', lambda: A.from_dict({}), A())
+    return OUT
+"""
     raise ValueError(how)
 
 
@@ -620,12 +914,16 @@ def gen_case(rng, s, pos):
         return ("discriminator-" + how, "", src_discriminator(s, how))
     if pos == "enum-name":
         return ("literal-enum-member-name", "", src_enum_member_name(s))
+    if pos == "default-object":
+        return (pos, "", src_literal(s, pos))
+    if pos == "literal-subclass":
+        return (pos, "", src_literal(s, "subclass"))
     if pos in ("literal-str", "literal-bytes", "enum-value", "default"):
         return (pos, "", src_literal(s, pos.replace("literal-", "")))
     raise ValueError(pos)
 
 
-POSITIONS = ["alias", "alias2", "typeddict", "discriminator", "literal-str", "literal-bytes", "enum-value", "default", "enum-name"]
+POSITIONS = ["alias", "alias2", "typeddict", "discriminator", "literal-str", "literal-bytes", "enum-value", "default", "enum-name", "default-object", "literal-subclass"]
 
 
 def in_domain(s: str, pos: str) -> bool:
@@ -703,7 +1001,8 @@ def oracle(ctx: vlib.Ctx, boost: bool = False):
 # the check
 # ---------------------------------------------------------------------------
 
-THEOREMS = ["C16_repr_lex", "C16_ascii_lex", "C16_repr_bytes_lex", "C16_repr_clean", "C16_raw_plain_lex",
+THEOREMS = ["C16_render_eval", "C16_sites_full", "C16_site_value", "C16_default_branches_safe", "C16_default_literal_general",
+            "C16_default_literal", "C16_repr_tuple_refuted", "C16_repr_lex", "C16_ascii_lex", "C16_repr_bytes_lex", "C16_repr_clean", "C16_raw_plain_lex",
             "C16_raw_refuted", "C16_sites", "C16_site_literal", "C16_site_guarded", "C16_ident_char_inert",
             "C16_site_literal_bytes"]
 
@@ -719,7 +1018,8 @@ def k10_evidence(ctx: vlib.Ctx):
     except Exception as e:
         ctx.notes.append(f"K10 report failed: {type(e).__name__}: {e}")
         return None
-    bad = [r for r in rep["sites"] if r["kind"] not in ("KRepr", "KAscii", "KGuardedIdent")]
+    bad = [r for r in rep["sites"] if r["kind"] not in ("KRepr", "KAscii", "KGuardedIdent")
+           or (r["kind"] in ("KRepr", "KAscii") and (not r.get("types") or any(t in ("TTuple", "TAny") or t.endswith("Sub") for t in r["types"])))]
     ctx.coverage["k10"] = {"rows": len(rep["sites"]), "counts": rep["counts"], "excluded_in_raise": rep["excluded_in_raise"],
                            "formatted_values_in_source": rep["total_formatted_values"],
                            "not_ok_rows": [f"{r['kind']} {r['file'].split('/')[-1]}:{r['line']} {r['expr'][:60]} ({r['origin'][:60]})" for r in bad[:20]],
@@ -736,7 +1036,8 @@ def run(ctx: vlib.Ctx):
         "surrogates, U+0085/2028, escape look-alikes, code fragments closing the literal with a sentinel side effect) + random "
         "strings over that alphabet + random code points; each corpus string goes to every position (metadata/Annotated/Config "
         "alias x field kind (incl. Any / pass_through identity unpackers) x option subset, TypedDict key, discriminator field "
-        "Config/Annotated/forbid, Literal str/bytes, enum value, enum member NAME inside Literal, default value), random strings to two positions each; distinct = (position, string); named-tuple keys: identifiers only")
+        "Config/Annotated/forbid, Literal str/bytes, enum value, enum member NAME inside Literal, default value, default tuples holding objects whose "
+        "__repr__ is the string / IntFlag / bytes defaults), random strings to two positions each; distinct = (position, string); named-tuple keys: identifiers only")
     ctx.assumptions += [
         "the printable oracle of repr is arbitrary in the theorems except that lone surrogates are not printable (checked for str.isprintable on all code points each run)",
         "strings are sequences of code points < 0x110000; bytes are < 256",
@@ -775,6 +1076,7 @@ def run(ctx: vlib.Ctx):
         if not ok:
             ctx.not_shown("coqchk VerifProps.C16_strings", log[-800:])
     model_tie(ctx)
+    lit_tie(ctx)
     broken = bool(ctx.unshown)
     oracle(ctx, boost=broken)
 
